@@ -99,6 +99,8 @@ def async_client(nmsg, one_byte=False):
 
         async def ev(*a, **k):
             pass
+        from sx.vloop import VLoop
+        vl = VLoop()
         spa = GeckoAsyncSpa(CLI_ID, GeckoAsyncSpaDescriptor(SRC_ID, "spa", DEST), None, ev)
         proto = GeckoAsyncUdpProtocol(None, DEST)
         proto.transport = FakeTransport()
@@ -122,8 +124,8 @@ def async_client(nmsg, one_byte=False):
             else:
                 data = _statp(op[1])
             sx.check(h.can_handle(data, SENDER), "pu.claimed")
-            drive(h.async_handle(data, SENDER))
-            drive(h.async_handled(SENDER))
+            vl.run_until_complete(h.async_handle(data, SENDER), max_time=vl.time() + 5)
+            vl.run_until_complete(h.async_handled(SENDER), max_time=vl.time() + 5)
             if op[0] == "msg":
                 nsent += 1
                 for pos, val in op[1]:
@@ -134,6 +136,73 @@ def async_client(nmsg, one_byte=False):
                 sx.check(len(proto.transport.sent) == nsent, "pu.no-ack-for-statq")
         sx.check_bytes_equal(spa.struct.status_block, ref, "pu.block-is-fold-of-updates")
     return scenario
+
+
+def refresh_interleaved(sx):
+    """a partial update arrives between two segments of a running refresh (real struct.get holding the protocol
+    lock, real partial-update consumer polling the same queue): arrival order decides - the update is applied when
+    it arrives, the refresh data installed afterwards wins where they overlap"""
+    import asyncio
+    from sx.vloop import VLoop, patched_time, FakeDatagramTransport
+    from geckolib.async_spa import GeckoAsyncSpa
+    from geckolib.driver import (GeckoAsyncUdpProtocol, GeckoAsyncPartialStatusBlockProtocolHandler,
+                                 GeckoStatusBlockProtocolHandler)
+    from geckolib.async_spa_descriptor import GeckoAsyncSpaDescriptor
+    from geckolib.config import GeckoConfig
+    from sx.loader import STRUCT_SHIM
+    saved = GeckoConfig.PROTOCOL_TIMEOUT_IN_SECONDS
+    GeckoConfig.PROTOCOL_TIMEOUT_IN_SECONDS = 1.0
+    loop = VLoop()
+    try:
+        with patched_time(loop):
+            async def ev(*a, **k):
+                pass
+            spa = GeckoAsyncSpa(CLI_ID, GeckoAsyncSpaDescriptor(SRC_ID, "spa", DEST), None, ev)
+            proto = GeckoAsyncUdpProtocol(None, DEST)
+            proto.connection_made(FakeDatagramTransport(loop, proto))
+            spa._protocol = proto
+            blk = sx.block("block", 1024)
+            spa.struct.set_status_block(blk)
+            h = GeckoAsyncPartialStatusBlockProtocolHandler(proto, async_on_handled=spa._async_on_partial_status_update)
+            seg0, seg1 = sx.bytes_("seg0", 4), sx.bytes_("seg1", 4)
+            upd_pos = 100 + sx.choice("update_position", 8)        # inside / beside the refreshed range 100..107
+            upd = sx.bytes_("update", 2)
+            when = sx.choice("update_arrives", 3)                  # before seg0 / between the segments / after the final one
+
+            def statv(i, nxt, data):
+                return b"STATV" + bytes([i, nxt, len(data)]) + data
+
+            async def env():
+                await asyncio.sleep(0.05)
+                order = [("v", statv(0, 1, seg0)), ("v", statv(1, 0, seg1))]
+                order.insert(when, ("p", b"STATP\x01" + STRUCT_SHIM.pack(">H", upd_pos) + upd))
+                for kind, d in order:
+                    proto.datagram_received(d, SENDER)
+                    await asyncio.sleep(0.35)
+
+            async def main():
+                c = asyncio.ensure_future(h.consume(proto))
+                e = asyncio.ensure_future(env())
+                ok = await spa.struct.get(proto, lambda: GeckoStatusBlockProtocolHandler.request(1, 100, 8, parms=SENDER), 1)
+                await e
+                await asyncio.sleep(0.3)
+                c.cancel()
+                return ok
+            ok = loop.run_until_complete(main(), max_time=60.0)
+            sx.check(ok is True, "pu.refresh-completes")
+            ref = blk
+            events = [("r0", None), ("r1", None)]
+            events.insert(when, ("p", None))
+            # the refresh installs both segments when its final segment arrives; the update applies on arrival
+            for kind, _ in events:
+                if kind == "p":
+                    ref = _apply(ref, upd_pos, upd)
+                elif kind == "r1":
+                    ref = _apply(ref, 100, seg0 + seg1)
+            sx.check_bytes_equal(spa.struct.status_block, ref, "pu.block-is-fold-of-updates")
+        loop.cancel_all()
+    finally:
+        GeckoConfig.PROTOCOL_TIMEOUT_IN_SECONDS = saved
 
 
 def _statq(seq):
@@ -189,5 +258,6 @@ def units(tier):
                        fresh_checks=True, presets={"refresh0": r0, "count0": c0})
     yield Unit("async.overlapping-changes", async_client("overlap"), fresh_checks=True)
     yield Unit("threaded.overlapping-changes", threaded_client("overlap"), fresh_checks=True)
+    yield Unit("async.refresh-interleaved", refresh_interleaved, fresh_checks=True)
     yield Unit("async.one-byte-change", async_client(1, True), fresh_checks=True)
     yield Unit("threaded.one-byte-change", threaded_client(1, True), fresh_checks=True)
